@@ -159,6 +159,9 @@ bool Action::stop() {
   if (timer_ev_ != nullptr)
     timer_ev_->disable();
 
+  //! 已派发但还没执行的阻塞回调，停止后不应再被执行
+  cancelDispatchedCallback();
+
   is_base_func_invoked_ = false;
 
   onStop();
